@@ -347,6 +347,10 @@ def run(prop, tier, extra=None):
     # code -> spec on the repository's own tests (DESIGN.md 4.5): the calls
     # its tests make, validated for this property's clauses
     suite.run_suite(out, tier, c['enforce'], c['prop'], recorded=rec_wait())
+    if prop == 'C02':
+        # the IOAPI wrapper's data path: TFLAG under selections of the time axis
+        import ioapi_driver
+        ioapi_driver.run_ioapi_slices(out, tier)
     # the command line pipeline: order of kinds (C01: completes, well-formed;
     # C02 / C03 / C06: values of lines made of their own kinds)
     if prop in ('C01', 'C02', 'C03', 'C06'):
